@@ -42,6 +42,7 @@ RNext ==
     \/ \E s \in Slots :
          \/ Stop(s) /\ H("Stop", s, 0, StopRet(s))
          \/ DropGuard(s) /\ H("Drop", s, 0, None)
+         \/ DropUnwind(s) /\ H("DropUnwind", s, 0, None)
          \/ Overwrite(s) /\ H("Overwrite", s, 0, None)
          \/ Discard(s) /\ H("Discard", s, 0, None)
 
